@@ -97,7 +97,7 @@ def parse_events(lines, den):
                 return evs, "non-representable dE %r" % dE
             below = bool(dE > 0 and T > 0 and u < math.exp(-dE / T))
             evs.append({"e": "S", "t": int(p[1]), "j": int(p[2]), "i": int(p[3]), "dE": d, "tpos": bool(T > 0),
-                        "below": below, "acc": p[7] == "1", "u_ok": bool(0.0 <= u < 1.0)})
+                        "below": below, "acc": p[7] == "1", "u_ok": bool(0.0 <= u < 1.0), "_T": T})
         elif p[0] == "E":
             v = scaled(hexfrac(p[2]), den)
             if v is None:
